@@ -359,6 +359,32 @@ func ruleInflCover(p *Prog, r *Report) {
 		} else {
 			r.Bad(rule, n, "attribute and text values pass through the cast function", p.Pos(fn.Pos()), fmt.Sprintf("%d value insertion sites store a cast() result (attribute and text sites expected); uncast attribute store at %q", nCast, raw))
 		}
+		// decoder-side escaping reaches every value the sequence decoder casts: the input of each cast() call (in the parser or in the
+		// helper that decodes the attributes) depends on xmlEscapeCharsDecoder
+		if eg := p.Globals["mxj.xmlEscapeCharsDecoder"]; eg != nil && castFn != nil {
+			nIn, unesc := 0, ""
+			scan := func(f *ssa.Function) {
+				eachInstr(f, func(b *ssa.BasicBlock, in ssa.Instruction) {
+					c, ok := in.(*ssa.Call)
+					if !ok || staticCallee(&c.Call) != castFn || len(c.Call.Args) == 0 {
+						return
+					}
+					nIn++
+					if !p.influence(f, true, c.Call.Args[0]).globals[eg] && unesc == "" {
+						unesc = p.Pos(c.Pos())
+					}
+				})
+			}
+			scan(fn)
+			for h := range seenHelper {
+				scan(h)
+			}
+			if nIn > 0 && unesc == "" {
+				r.OK(rule, n, "cast values depend on xmlEscapeCharsDecoder", p.Pos(fn.Pos()), fmt.Sprintf("%d cast inputs, each influenced by the decoder-side escaping switch", nIn))
+			} else if nIn > 0 {
+				r.Bad(rule, n, "cast values depend on xmlEscapeCharsDecoder", unesc, "the value handed to cast() at "+unesc+" does not depend on XMLEscapeCharsDecoder: with decoder-side escaping on it reaches the Map unescaped, and the encoder (which then does not escape) writes it raw")
+			}
+		}
 		// the key parameter of the recursive call depends on snakeCaseKeys
 		skeyInfl := false
 		eachInstr(fn, func(b *ssa.BasicBlock, in ssa.Instruction) {
